@@ -430,6 +430,21 @@ def check_isa(ctx, impl, case, outs):
         ps = float(sa.pressure_at_altitude_isa_bada4(hv))
         pv = float(np.array(sa.pressure_at_altitude_isa_bada4(np.array([hv])))[0])
         rep.clause('isa_scalar_equals_array', close(ps, pv, RTOL), f'h={hv}: scalar {ps!r} array {pv!r}')
+    # whole-number altitudes handed over as integers (a Python int, an integer array: flight levels, a column read from a file)
+    # are the same altitudes: the answers must be those of the float call
+    hi_ = np.array(sorted({int(x) for x in h if 0 <= x <= 25000} | {0, 500, 11000, 12000, 25000}), dtype=np.int64)
+    Tf = np.asarray(sa.temperature_at_altitude_isa_bada4(hi_.astype(float)), dtype=float)
+    pf_ = np.asarray(sa.pressure_at_altitude_isa_bada4(hi_.astype(float)), dtype=float)
+    Ti = np.asarray(sa.temperature_at_altitude_isa_bada4(hi_), dtype=float)
+    pi_ = np.asarray(sa.pressure_at_altitude_isa_bada4(hi_), dtype=float)
+    j = _first_bad(Ti, Tf, RTOL)
+    rep.clause('isa_integer_altitudes', j is None and _first_bad(pi_, pf_, RTOL) is None,
+               '' if j is None and _first_bad(pi_, pf_, RTOL) is None else
+               f'integer altitude array: T {Ti[j if j is not None else 0]!r} vs float call {Tf[j if j is not None else 0]!r} at h={int(hi_[j if j is not None else 0])}')
+    for hv in (0, 7000, 12000):
+        ts, tf = float(sa.temperature_at_altitude_isa_bada4(hv)), float(sa.temperature_at_altitude_isa_bada4(float(hv)))
+        ps_i, ps_f = float(sa.pressure_at_altitude_isa_bada4(hv)), float(sa.pressure_at_altitude_isa_bada4(float(hv)))
+        rep.clause('isa_integer_altitudes', close(ts, tf, RTOL) and close(ps_i, ps_f, RTOL), f'h={hv} (int): T {ts!r} p {ps_i!r} vs float call T {tf!r} p {ps_f!r}')
     # inverse in both directions, both layers
     hb = sa.altitude_from_pressure_isa_bada4(p)
     i = _first_bad(hb, h, RTOL, 1e-6)
